@@ -8,7 +8,7 @@ from scipy import stats
 from mc import alphabets as A
 
 CORR_DESIGNS = ('identity', 'equi+', 'equi-', 'ar1', 'mixed', 'near-singular')
-MARG_MIXES = ('normal', 'rotated', 'bimodal', 'integer')
+MARG_MIXES = ('normal', 'rotated', 'bimodal', 'integer', 'offset')
 ROT = [stats.norm(1.0, 2.0), stats.gamma(2.0, loc=0.5, scale=1.5), stats.beta(2.0, 3.0, loc=-1, scale=4),
        stats.uniform(2.0, 5.0), stats.t(5.0, loc=0.0, scale=1.0), stats.lognorm(0.5, scale=2.0)]
 
@@ -61,6 +61,9 @@ def marginals(mix, d):
             out.append(('bimodal', None) if j % 2 == 0 else ('dist', ROT[j % len(ROT)]))
         elif mix == 'integer':
             out.append(('integer', None) if j % 2 == 0 else ('dist', stats.norm(0, 1)))
+        elif mix == 'offset':
+            # large magnitude, small relative spread (epoch-timestamp like): relative range ~1e-6
+            out.append(('dist', stats.norm(1.7e9, 2000.0)) if j % 2 == 0 else ('dist', ROT[j % len(ROT)]))
     return out
 
 
